@@ -16,6 +16,9 @@
 #ifndef V_GUARD
 #define V_GUARD(v) ((void)0)     /* guarded-by hook: a spec may #undef and define it to check the lock that guards v */
 #endif
+#ifndef V_ERASE_ONE_HOOK
+#define V_ERASE_ONE_HOOK(v, k) ((void)0)
+#endif
 #define V_VEC_DECL(T, N) \
   struct N { T *data; size_t size; }; \
   static inline void N##_init(struct N *v) { v->data = NULL; v->size = 0; } \
@@ -36,6 +39,8 @@
   static inline T *N##_erase_to_end(struct N *v, T *from, T *to) { V_GUARD(v); __CPROVER_assert(to == v->data + v->size, "erase(it, end()): second iterator is end()"); \
     __CPROVER_assert(__CPROVER_same_object(from, to) && from <= to && (v->size == 0 || from >= v->data), "erase(it, end()): first iterator inside the container"); \
     v->size -= (size_t)(to - from); return v->data + v->size; }   /* erasing a tail neither moves nor reallocates the elements before it */ \
+  static inline T *N##_erase_one(struct N *v, T *it) { V_GUARD(v); __CPROVER_assert(v->size > 0 && __CPROVER_same_object(it, v->data) && it >= v->data && it < v->data + v->size, "erase(it): iterator designates an element"); \
+    size_t k = (size_t)(it - v->data); V_ERASE_ONE_HOOK(v, k); if (k + 1 < v->size) v_memmove(v->data + k, v->data + k + 1, (v->size - k - 1) * sizeof(T)); v->size--; return v->data + k; } \
   static inline struct N *N##_assign(struct N *d, const struct N *s) { V_GUARD(d); V_GUARD(s); if (d != s) { N##_resize(d, 0); N##_resize(d, s->size); V_VEC_COPY(T, d->data, s->data, s->size); } return d; } \
   static inline void N##_push_back(struct N *v, T x) { V_GUARD(v); size_t s = v->size; N##_resize(v, s + 1); v->data[s] = x; } \
   static inline void N##_pop_back(struct N *v) { V_GUARD(v); __CPROVER_assert(v->size > 0, "vector::pop_back on a non-empty vector"); N##_resize(v, v->size - 1); } \
